@@ -141,9 +141,9 @@ static void eval_seq(pkt_t **seq,int m,const char *what){
             if (inside) begins_pre=1; else { exp2[ne2]=p->ex[i]; exp2[ne2].frame=g-b; ne2++; }
          }
       }
-      for(k=0;k<m;k++) if(start[k]>=b&&start[k]<e){
-         if (!seq[k]->ext_valid) unconstrained=1;
-         else if (start[k]+seq[k]->nf>e) for(i=0;i<seq[k]->next;i++) if(seq[k]->ex[i].frame>=e-start[k]) ends_pre=1;
+      for(k=0;k<m;k++) if(start[k]<e&&start[k]+seq[k]->nf>b){          /* packet overlaps the range */
+         if (!seq[k]->ext_valid) unconstrained=1;                       /* nothing well-formed to carry: outside the C16 statement (F3, C07) */
+         else if (start[k]>=b&&start[k]+seq[k]->nf>e) for(i=0;i<seq[k]->next;i++) if(seq[k]->ex[i].frame>=e-start[k]) ends_pre=1;
       }
       r=opus_repacketizer_out_range(&RP,b,e,big,OUTBIG); l_calls++;
       if (unconstrained){ l_unc++; if(r>OUTBIG) FAIL("carriage:claims_more_than_buffer","range [%d,%d) returned %d; %s",b,e,(int)r,seq_str(seq,m)); continue; }
